@@ -214,12 +214,16 @@ PCtxSnap(actor, live) ==
     /\ Tick
     /\ UNCHANGED <<cfg, now, pctx, prt, epoch, inst, calls, chs, credit, creditR, needEnter, ctxTouch, status, cbseen, boReset, boStop, rootdead, td>>
 
-PEnter(i, tag, key, dead) ==
+PEnter(i, tag, key, dead0) ==
     \* earlier runs of the same routine/state whose exit the container recorded (its exit callbacks
     \* ran): an exit that was overtaken by a superseding call before it was recorded is not an
     \* "exit status" of the container (weaker reading)
     LET same == {j \in Insts : inst[j].key = key /\ ~inst[j].act /\ inst[j].cur /\ <<1, j>> \in cbseen}
         prev == IF same = {} THEN 0 ELSE CHOOSE j \in same : \A k \in same : inst[k].eclk <= inst[j].eclk
+        \* An instance born with a cancelled context is a straggler of an earlier generation -- unless the
+        \* context is the container's present one and the CLIENT cancelled it (rootdead): then it is the
+        \* container's own current run, and what it returns is the container's exit status.
+        dead == dead0 /\ ~(tag = pctx /\ tag \in rootdead)
         rec == [act |-> TRUE, out |-> "", tag |-> tag, key |-> key, eclk |-> clk + 1, ep |-> epoch,
                 lclk |-> 0, ltime |-> 0, cur |-> FALSE, dead |-> dead]
     IN
